@@ -9,6 +9,9 @@ Open Scope N_scope.
 Lemma key_inj a b : key a = key b -> a = b.
 Proof. unfold key. intros H. apply (f_equal Pos.pred_N) in H. rewrite !N.pos_pred_succ in H. exact H. Qed.
 
+Lemma key_pred k : key (Pos.pred_N k) = k.
+Proof. unfold key. destruct k; cbn; auto. apply Pos.succ_pred_double. Qed.
+
 Lemma mget_mset_eq {A} h (a : A) m : mget h (mset h a m) = Some a.
 Proof. apply PositiveMap.gss. Qed.
 Lemma mget_mset_neq {A} h h' (a : A) m : h <> h' -> mget h (mset h' a m) = mget h m.
@@ -242,7 +245,10 @@ Definition same_logic (st st' : db) : Prop :=
 Lemma same_logic_refl st : same_logic st st.
 Proof. repeat split. Qed.
 Lemma same_logic_trans a b c : same_logic a b -> same_logic b c -> same_logic a c.
-Proof. intros (A1 & A2 & A3 & A4) (B1 & B2 & B3 & B4). repeat split; try congruence. intros x. rewrite B1. apply A1. Qed.
+Proof.
+  intros (A1 & A2 & A3 & A4) (B1 & B2 & B3 & B4).
+  split; [intros x; rewrite B1; apply A1|]. split; [congruence|]. split; congruence.
+Qed.
 
 Lemma same_logic_setd_ptr st x e e' :
   getd st x = Some e -> lg e' = lg e -> same_logic st (setd st x e').
@@ -250,6 +256,16 @@ Proof.
   intros He Hl. repeat split. intros y. rewrite lget_setd. destruct (N.eqb_spec y x) as [->|]; auto.
   unfold lget. rewrite He. congruence.
 Qed.
+
+Lemma nodup_app_disj (l1 l2 : list N) x : NoDup (l1 ++ l2) -> In x l1 -> In x l2 -> False.
+Proof.
+  induction l1 as [|y l1 IH]; cbn; [tauto|]. intros Hnd [->|Hin] H2.
+  - inversion Hnd as [|? ? Hn _]. apply Hn, in_or_app. auto.
+  - inversion Hnd. eauto.
+Qed.
+
+Lemma nodup_app_r (l1 l2 : list N) : NoDup (l1 ++ l2) -> NoDup l2.
+Proof. induction l1; cbn; auto. intros H. inversion H; auto. Qed.
 
 Lemma unlink_linked fl st h node e :
   linked fl st -> In h fl -> getd st h = Some e -> e_prev node = e_prev e -> e_next node = e_next e ->
@@ -265,12 +281,12 @@ Proof.
   - (* head *)
     cbn in Hold. rewrite Hold, N.eqb_refl. rewrite Hne, Hn0.
     destruct l2 as [|n t].
-    + cbn. eexists. split; [reflexivity|]. split; [|split; [apply same_logic_refl|reflexivity]].
+    + cbn. eexists. split; [reflexivity|]. split; [|split; [repeat split|reflexivity]].
       constructor; cbn; auto. constructor. congruence.
     + assert (Hn : n <> 0) by (intros ->; apply Hnz; cbn; auto).
       cbn [hd]. destruct (N.eqb_spec n 0); [congruence|].
       cbn in Hch. destruct Hch as (_ & _ & _ & _ & (en & Hen & _ & Hnn & Hct)).
-      unfold upd. simp_st. change (mget n (dirties st)) with (getd st n). rewrite Hen.
+      rewrite (upd_ok (with_oldest st n) n _ en Hen).
       eexists. split; [reflexivity|].
       assert (Hnh : n <> h) by (intros ->; inversion Hnd; cbn in *; tauto).
       split; [|split].
@@ -279,7 +295,7 @@ Proof.
         -- cbn in *. tauto.
         -- reflexivity.
         -- intros _. cbn [newest setd with_dirties with_oldest]. rewrite Hnew by discriminate.
-           change ([] ++ h :: n :: t) with (h :: n :: t). rewrite last_cons. symmetry. apply last_cons.
+           change ([] ++ h :: n :: t) with (h :: n :: t). change ([] ++ n :: t) with (n :: t). rewrite !last_cons. reflexivity.
         -- cbn [chain]. exists (set_prev en 0). split; [|split; [|split]].
            ++ change (getd (setd (with_oldest st n) n (set_prev en 0)) n = Some (set_prev en 0)).
               rewrite getd_setd, N.eqb_refl. reflexivity.
@@ -315,7 +331,7 @@ Proof.
       assert (Hhn : (h =? newest st) = true).
       { apply N.eqb_eq. rewrite Hnew by (destruct l1'; discriminate). rewrite last_app_cons. reflexivity. }
       rewrite Hhn, Hpe, Hp0. destruct (N.eqb_spec b 0); [congruence|].
-      unfold upd. simp_st. change (mget b (dirties st)) with (getd st b). rewrite Heb.
+      rewrite (upd_ok (with_newest st b) b _ eb Heb).
       eexists. split; [reflexivity|]. split; [|split].
       * constructor.
         -- replace (l1' ++ [b; h]) with ((l1' ++ [b]) ++ [h]) in Hnd by (rewrite <- app_assoc; reflexivity).
@@ -326,7 +342,7 @@ Proof.
         -- eapply (chain_cut_last st _ 0 l1' b h); eauto.
            ++ intros x Hx. change (pn (setd (with_newest st b) b (set_next eb 0)) x = pn st x).
               rewrite pn_setd. destruct (N.eqb_spec x b) as [->|]; [|reflexivity].
-              apply NoDup_remove_2 in Hnd. exfalso. apply Hnd, in_or_app. auto.
+              exfalso. apply (nodup_app_disj _ _ b Hnd Hx). cbn. auto.
            ++ exists eb. split; auto. exists (set_next eb 0). split; [|split; reflexivity].
               change (getd (setd (with_newest st b) b (set_next eb 0)) b = Some (set_next eb 0)).
               rewrite getd_setd, N.eqb_refl. reflexivity.
@@ -353,9 +369,10 @@ Proof.
       replace (l1' ++ b :: h :: n :: t) with ((l1' ++ [b; h]) ++ n :: t) in Hch by (rewrite <- app_assoc; reflexivity).
       destruct (chain_mid _ _ _ _ _ Hch) as (en & Hen & Hnn & _).
       replace ((l1' ++ [b; h]) ++ n :: t) with (l1' ++ b :: h :: n :: t) in Hch by (rewrite <- app_assoc; reflexivity).
-      unfold upd, bind. simp_st. change (mget b (dirties st)) with (getd st b). rewrite Heb.
-      change (mget n (dirties (setd st b (set_next eb n)))) with (getd (setd st b (set_next eb n)) n).
-      rewrite getd_setd. destruct (N.eqb_spec n b); [congruence|]. rewrite Hen.
+      rewrite (upd_ok st b _ eb Heb). cbn [bind].
+      assert (Hen2 : getd (setd st b (set_next eb n)) n = Some en).
+      { rewrite getd_setd. destruct (N.eqb_spec n b); [congruence|auto]. }
+      rewrite (upd_ok _ n _ en Hen2).
       set (st' := setd (setd st b (set_next eb n)) n (set_prev en b)).
       exists st'. split; [reflexivity|]. split; [|split].
       * constructor.
@@ -368,23 +385,183 @@ Proof.
         -- eapply (chain_cut st st' 0 l1' b h (n :: t)); eauto.
            ++ intros x Hx. unfold st'. rewrite !pn_setd.
               destruct (N.eqb_spec x n) as [->|].
-              { exfalso. apply NoDup_remove_2 in Hnd. apply Hnd, in_or_app. auto. }
+              { exfalso. apply (nodup_app_disj _ _ n Hnd Hx). cbn. auto. }
               destruct (N.eqb_spec x b) as [->|]; [|reflexivity].
-              exfalso. apply NoDup_remove_2 in Hnd. apply Hnd, in_or_app. auto.
+              exfalso. apply (nodup_app_disj _ _ b Hnd Hx). cbn. auto.
            ++ exists eb. split; auto. exists (set_next eb n). split; [|split; reflexivity].
               unfold st'. rewrite !getd_setd. destruct (N.eqb_spec b n); [congruence|]. rewrite N.eqb_refl. reflexivity.
            ++ split.
               ** exists en. split; auto. exists (set_prev en b). split; [|split; reflexivity].
                  unfold st'. rewrite getd_setd, N.eqb_refl. reflexivity.
               ** intros x Hx. unfold st'. rewrite !pn_setd.
-                 assert (Hnd2 : NoDup (b :: h :: n :: t)) by (apply NoDup_app_remove_l in Hnd; exact Hnd).
+                 assert (Hnd2 : NoDup (b :: h :: n :: t)) by (apply nodup_app_r in Hnd; exact Hnd).
                  destruct (N.eqb_spec x n) as [->|].
                  { exfalso. inversion Hnd2 as [|? ? _ H2]. inversion H2 as [|? ? _ H3]. inversion H3; tauto. }
                  destruct (N.eqb_spec x b) as [->|]; [|reflexivity].
                  exfalso. inversion Hnd2 as [|? ? H1 _]. apply H1. cbn. auto.
       * unfold st'. eapply same_logic_trans.
+        -- apply (same_logic_setd_ptr st b eb (set_next eb n)); auto.
         -- apply (same_logic_setd_ptr (setd st b (set_next eb n)) n en (set_prev en b)); [|reflexivity].
            rewrite getd_setd. destruct (N.eqb_spec n b); [congruence|auto].
-        -- apply (same_logic_setd_ptr st b eb (set_next eb n)); auto.
       * unfold st'. rewrite !getd_setd. destruct (N.eqb_spec h n); [congruence|]. destruct (N.eqb_spec h b); [congruence|reflexivity].
+Qed.
+
+Lemma getd_drop_node nsize st h e x :
+  getd (drop_node nsize st h e) x = if x =? h then None else getd st x.
+Proof. unfold drop_node. exact (getd_deld st h x). Qed.
+
+(* cleaner.Put keeps the flush list well formed *)
+Lemma uncache_linked nsize fl st h :
+  linked fl st -> (forall x, getd st x <> None <-> In x fl) ->
+  exists st', uncache nsize st h = Ok st' /\ linked (rm h fl) st' /\
+              (forall x, getd st' x <> None <-> In x (rm h fl)) /\ disk st' = disk st /\
+              (forall x, x <> h -> lget st' x = lget st x).
+Proof.
+  intros Hl Hdom. unfold uncache.
+  destruct (getd st h) as [e|] eqn:He.
+  - assert (Hin : In h fl) by (apply Hdom; congruence).
+    destruct (unlink_linked fl st h e e Hl Hin He eq_refl eq_refl) as (st1 & -> & Hl1 & (Hlg & Hdk & _ & _) & Hh).
+    cbn [bind]. eexists. split; [reflexivity|]. split; [|split; [|split]].
+    + destruct Hl1 as [A B C D E]. constructor; auto.
+      eapply chain_ext; [|exact E]. intros x Hx. unfold pn. rewrite getd_drop_node.
+      apply rm_in in Hx as [_ Hx]. destruct (N.eqb_spec x h); [congruence|reflexivity].
+    + intros x. rewrite getd_drop_node, rm_in. destruct (N.eqb_spec x h) as [->|Hn].
+      * split; [congruence|tauto].
+      * rewrite <- Hdom. specialize (Hlg x). unfold lget in Hlg.
+        destruct (getd st1 x), (getd st x); try discriminate; intuition congruence.
+    + exact Hdk.
+    + intros x Hx. unfold lget. rewrite getd_drop_node. destruct (N.eqb_spec x h); [congruence|]. apply Hlg.
+  - exists st. split; [reflexivity|]. assert (Hn : ~ In h fl) by (rewrite <- Hdom; congruence).
+    rewrite (rm_notin _ _ Hn). split; [exact Hl|]. split; [exact Hdom|]. split; reflexivity.
+Qed.
+
+(* ------------------------------------------------------------------ the invariant and what it implies *)
+Section Inv.
+  Variable kids : N -> list N.
+  Variable ext : N -> list N.      (* storage roots embedded in the account leaves of a node *)
+  Variable nsize : N -> N.
+
+  Definition ondisk (st : db) (h : N) : Prop := mget h (disk st) <> None.
+  Definition cached (st : db) (h : N) : Prop := getd st h <> None.
+
+  Definition tracked (st : db) (h : N) : list N :=
+    match getd st h with Some e => e_ext e ++ kids h | None => [] end.
+
+  (* occurrences of x among the tracked children of the cached nodes *)
+  Fixpoint occ (st : db) (fl : list N) (x : N) : nat :=
+    match fl with [] => 0%nat | p :: r => (cnt x (tracked st p) + occ st r x)%nat end.
+
+  Fixpoint sumZ (f : N -> Z) (l : list N) : Z :=
+    match l with [] => 0%Z | x :: r => (f x + sumZ f r)%Z end.
+
+  Record Inv (fl : list N) (stamp u : N -> nat) (st : db) : Prop := mkInv {
+    i_linked : linked fl st;
+    i_dom : forall h, cached st h <-> In h fl;
+    i_sorted : StronglySorted (fun a b => (stamp a < stamp b)%nat) fl;
+    i_disk_closed : forall x c, ondisk st x -> In c (kids x ++ ext x) -> ondisk st c;
+    i_children : forall p c, In p fl -> In c (tracked st p) ->
+                 ondisk st c \/ (In c fl /\ (stamp c < stamp p)%nat);
+    i_ext : forall p e s, getd st p = Some e -> In s (ext p) -> ondisk st s \/ In s (e_ext e);
+    i_extsub : forall p e, getd st p = Some e -> NoDup (e_ext e) /\ incl (e_ext e) (ext p);
+    i_exact : forall x e, getd st x = Some e -> ~ ondisk st x ->
+              N.to_nat (e_parents e) = (occ st fl x + u x)%nat;
+    i_roots : forall r, (0 < u r)%nat -> In r fl \/ ondisk st r;
+    i_dsize : dsize st = sumZ (node_cost nsize) fl;
+    i_csize : csize st = sumZ (fun h => match getd st h with Some e => zlen (e_ext e) * hashLen | None => 0 end)%Z fl
+  }.
+
+  (* reachability in the node graph: trie children and account -> storage root edges *)
+  Inductive reach (r : N) : N -> Prop :=
+  | reach_refl : reach r r
+  | reach_step x c : reach r x -> In c (kids x ++ ext x) -> reach r c.
+
+  Lemma ondisk_reach st fl stamp u r x :
+    Inv fl stamp u st -> ondisk st r -> reach r x -> ondisk st x.
+  Proof. intros HI Hr Hx. induction Hx; auto. eapply i_disk_closed; eauto. Qed.
+
+  (* THE property, as a consequence of the invariant *)
+  Lemma inv_live_readable st fl stamp u r x :
+    Inv fl stamp u st -> (0 < u r)%nat -> reach r x -> cached st x \/ ondisk st x.
+  Proof.
+    intros HI Hu Hx. induction Hx as [|x c Hx IH Hc].
+    - destruct (i_roots _ _ _ _ HI r Hu); [left; apply (i_dom _ _ _ _ HI); auto|right; auto].
+    - destruct IH as [Hca|Hd]; [|right; eapply i_disk_closed; eauto].
+      assert (Hin := proj1 (i_dom _ _ _ _ HI x) Hca).
+      unfold cached in Hca. destruct (getd st x) as [e|] eqn:He; [|congruence].
+      assert (Ht : In c (tracked st x) \/ ondisk st c).
+      { apply in_app_or in Hc as [Hc|Hc].
+        - left. unfold tracked. rewrite He. apply in_or_app. auto.
+        - destruct (i_ext _ _ _ _ HI x e c He Hc); [right; auto|left].
+          unfold tracked. rewrite He. apply in_or_app. auto. }
+      destruct Ht as [Ht|Ht]; [|right; auto].
+      destruct (i_children _ _ _ _ HI x c Hin Ht) as [?|[Hcf _]]; [right; auto|left].
+      apply (i_dom _ _ _ _ HI). auto.
+  Qed.
+
+  (* reported memory usage matches the cached contents *)
+  Lemma inv_size_exact st fl stamp u cns :
+    Inv fl stamp u st ->
+    Size cns st = (sumZ (fun h => node_cost nsize h + cns +
+                     match getd st h with Some e => zlen (e_ext e) * hashLen | None => 0 end) fl)%Z.
+  Proof.
+    intros HI. unfold Size. rewrite (i_dsize _ _ _ _ HI), (i_csize _ _ _ _ HI).
+    assert (Hc : mcard (dirties st) = length fl).
+    { apply Nat.le_antisymm.
+      - unfold mcard. rewrite PositiveMap.cardinal_1.
+        rewrite <- (map_length fst), <- (map_length key fl).
+        apply NoDup_incl_length.
+        + assert (H := PositiveMap.elements_3w (dirties st)).
+          induction H as [|[k v] l Hn _ IH]; cbn; constructor; auto.
+          intros Hc. apply Hn. apply in_map_iff in Hc as ([k' v'] & Hk & Hin). cbn in Hk. subst k'.
+          apply SetoidList.InA_alt. exists (k, v'). split; [reflexivity|auto].
+        + intros k Hk. apply in_map_iff in Hk as ([k' v] & Hk' & Hin). cbn in Hk'. subst k'.
+          apply PositiveMap.elements_complete in Hin.
+          assert (Hkk : k = key (Pos.pred_N k)) by (symmetry; apply key_pred).
+          apply in_map_iff. exists (Pos.pred_N k). split; [auto|].
+          apply (i_dom _ _ _ _ HI). unfold cached, getd, mget. rewrite <- Hkk. congruence.
+      - apply mcard_ge; [apply (lk_nodup _ _ (i_linked _ _ _ _ HI))|].
+        intros h Hh. apply (i_dom _ _ _ _ HI) in Hh. exact Hh. }
+    rewrite Hc. clear. induction fl as [|x r IH]; cbn [sumZ length]; [lia|]. lia.
+  Qed.
+End Inv.
+
+(* ------------------------------------------------------------------ a history that defeats collection *)
+(* S = 1 (28 bytes), P = 2 (38 bytes, account leaf with storage root S).  P and S are committed;
+   P is resubmitted while S is only on disk (reference skipped); S is resubmitted, now counted
+   from the older P; Cap flushes P alone; both references to P are removed. *)
+Definition leak_kids (h : N) : list N := [].
+Definition leak_size (h : N) : N := if h =? 1 then 28 else 38.
+Definition leak_ops : list op :=
+  [ OUpdate [1; 2] [(1, 2)]; OReference 2 0; OCommit 2;
+    OUpdate [2] [(1, 2)]; OReference 2 0;
+    OUpdate [1; 2] [(1, 2)];
+    OCap 267%Z; ODereference 2; ODereference 2 ].
+
+Definition leak_check (st : db) : bool :=
+  match getd st 1, getd st 2, mget 1 (disk st) with
+  | Some e, None, Some _ => (e_parents e =? 1) && (oldest st =? 1) && (e_next e =? 0)
+  | _, _, _ => false
+  end.
+
+Lemma leak_witness :
+  exists st, run leak_kids leak_size 104%Z 102400%Z leak_ops empty_db = Ok st /\ leak_check st = true.
+Proof. eexists. split; vm_compute; reflexivity. Qed.
+
+(* a concrete well-formed flush list, for non-vacuity *)
+Definition demo_ops : list op :=
+  [ OUpdate [1; 2; 3] [(1, 2)]; OReference 3 0 ].
+Definition demo_kids (h : N) : list N := if h =? 3 then [2; 2] else [].
+Definition demo_state : db :=
+  match run demo_kids leak_size 104%Z 102400%Z demo_ops empty_db with Ok st => st | _ => empty_db end.
+
+Lemma demo_linked : linked [1; 2; 3] demo_state.
+Proof.
+  constructor.
+  - repeat constructor; cbn; intuition discriminate.
+  - cbn. intuition discriminate.
+  - reflexivity.
+  - reflexivity.
+  - cbn [chain]. eexists. split; [vm_compute; reflexivity|]. split; [tauto|]. split; [reflexivity|].
+    eexists. split; [vm_compute; reflexivity|]. split; [reflexivity|]. split; [reflexivity|].
+    eexists. split; [vm_compute; reflexivity|]. split; [reflexivity|]. split; [reflexivity|]. exact I.
 Qed.
